@@ -135,8 +135,10 @@ def run(rep, tier):
         if hname:
             h = handlers.get(hname)
             if h is None:
-                probs.append("handler %s not found" % hname)
-            else:
+                # the handler does not exist as a function of its own (inlined by hand): the chain is read off
+                # handle_arguments itself
+                h = ha
+            if True:
                 keys = {s for kind, s, ev, pos in vm_keys(h)}
                 if opt not in keys:
                     probs.append("%s does not read option %s (reads %s)" % (hname, opt, sorted(keys)))
@@ -167,7 +169,36 @@ def run(rep, tier):
     for hname, (opt, ini) in simple.items():
         h = handlers.get(hname)
         if h is None:
-            raise AnalysisBroken("handler %s not found" % hname)
+            # resolved inside handle_arguments: the same clauses decided from branch facts - every read of vm[opt] lies
+            # under count(opt) != 0, every read of the configuration value for this setting under count(opt) == 0
+            ffh_ = FactFlow(ha)
+            idx = [(ev, pos) for kind, s_, ev, pos in vm_keys(ha) if kind == "index" and s_ == opt]
+            cnt = [(ev, pos) for kind, s_, ev, pos in vm_keys(ha) if kind == "count" and s_ == opt]
+            cfg = [(ev, (b, i)) for b, i, ev in ha.all_events() if ev.get("k") == "call" and callee_short(ev) == "get_value" and ini in literals(ev.get("args", []))]
+            if not cnt or not idx or not cfg:
+                rep.bad("C16.R2", ha, ha.loc, "keys:" + hname, "the resolution of --%s in handle_arguments tests %d / reads %d / falls back %d times: the option is ignored or there is no fallback to %s"
+                        % (opt, len(cnt), len(idx), len(cfg), ini))
+                continue
+
+            def present(pos):
+                vals = set()
+                for a, t in (ffh_.before.get(pos) or frozenset()):
+                    if "count(" in a and ('"%s"' % opt) in a:
+                        inverted = bool(re.match(r"^0 == ", a)) or a.endswith(" == 0")
+                        vals.add((not t) if inverted else t)
+                return vals
+            detail = []
+            for ev, pos in idx:
+                if present(pos) != {True}:
+                    detail.append("vm[\"%s\"] is read at %s without the option being known to be present" % (opt, loc_of(ev)))
+            for ev, pos in cfg:
+                if present(pos) != {False}:
+                    detail.append("the configuration value %s is used at %s although the option may be present" % (ini, loc_of(ev)))
+            if detail:
+                rep.bad("C16.R2", ha, ha.loc, "precedence:" + hname, "the resolution of --%s (in handle_arguments) does not give the command line precedence over the configuration/environment value: %s" % (opt, "; ".join(detail)))
+            else:
+                rep.ok("C16.R2", ha, "--%s resolved in handle_arguments: vm[\"%s\"] exactly when the option is present, else cfgmap.get_value(\"%s\", default)" % (opt, opt, ini))
+            continue
         ks = vm_keys(h)
         ck = {s for kind, s, ev, pos in ks if kind == "count"}
         ik = {s for kind, s, ev, pos in ks if kind == "index"}
@@ -335,6 +366,10 @@ def run(rep, tier):
              "handle_num_threads": "pika.os_threads", "handle_num_cores": "pika.cores"}
     for hname, ini in pairs.items():
         hc = [(b, i, ev) for b, i, ev in hcalls if callee_short(ev) == hname]
+        if not hc and hname not in handlers:
+            # resolved in handle_arguments itself: the test of the option (evaluated on every path) stands for the call
+            opt_ = [o for o, i_, e_, h_ in SETTINGS if h_ == hname]
+            hc = [(pos[0], pos[1], ev) for kind, s_, ev, pos in vm_keys(ha) if kind == "count" and opt_ and s_ == opt_[0]]
         ws = W.get(ini, [])
         if hc and ws and all(precedes_on_all_paths(ha, lambda e: e is hc[0][2], (b, i)) for b, i, ev in ws):
             rep.ok("C16.R3", ha, "%s's result is written back as %s after the handler ran" % (hname, ini))
@@ -346,9 +381,24 @@ def run(rep, tier):
     if not po:
         raise AnalysisBroken("prepend_options not found")
     po = po[0]
-    res = [e for _, _, e in po.all_events() if e.get("k") in ("ctor", "decl") and e.get("var") == "result"]
-    mv = [e for _, _, e in po.all_events() if e.get("k") == "call" and callee_short(e) in ("move", "copy", "insert") and "args" in T(e) and "result" in T(e)]
-    if res and "tok" in T(res[0]) and mv and "back_inserter(result)" in T(mv[0]):
+    # the returned vector is built from the tokenised option string first, the real arguments are appended after it
+    # (names are free: the vector is what is returned, the tokens come from the 'options' parameter, the arguments
+    # from the 'args' parameter - identified by position)
+    if len(po.params) != 2:
+        raise AnalysisBroken("prepend_options: expected (args, options)")
+    ARGS, OPTS = po.params[0]["name"], po.params[1]["name"]
+    from engine.kinds import derives_from
+    word = lambda n, t: re.search(r"(^|[^\w.>])%s($|[^\w])" % re.escape(n), t) is not None
+    rets_ = [e for _, _, e in po.all_events() if e.get("k") == "return" and e.get("e") is not None]
+    resv = [strip(e["e"]).get("name") for e in rets_ if strip(e["e"]).get("k") == "var" and strip(e["e"]).get("name") != ARGS]
+    res = [e for _, _, e in po.all_events() if e.get("k") in ("ctor", "decl") and resv and e.get("var") == resv[0]]
+    from_tokens = bool(res) and derives_from(po, res[0].get("init") if res[0].get("k") == "decl" else {"k": "list", "args": res[0].get("args", [])}, lambda t: word(OPTS, t)) \
+        if res else False
+    if res and not from_tokens:
+        from_tokens = any(derives_from(po, a, lambda t: word(OPTS, t)) for r_ in res for a in (r_.get("args") or []))
+    mv = [e for _, _, e in po.all_events() if e.get("k") == "call" and callee_short(e) in ("move", "copy", "insert") and resv and word(ARGS, T(e)) and word(resv[0], T(e))]
+    appended = bool(mv) and ("back_inserter(%s)" % resv[0] in T(mv[0]) or ("%s.end()" % resv[0]) in T(mv[0]))
+    if res and from_tokens and appended:
         rep.ok("C16.R4", po, "prepend_options: result starts with the tokenised option string, the real arguments are appended after it")
     else:
         rep.bad("C16.R4", po, po.loc, "prepend-order", "PIKA_COMMANDLINE_OPTIONS must be placed before the real command line (later occurrences win / are detected): found result=%s, move=%s" % (T(res[0]) if res else None, T(mv[0]) if mv else None))
@@ -361,8 +411,11 @@ def run(rep, tier):
         # clang numbers blocks from the exit upwards: the first occurrence in execution order has the highest block id
         seq.append(sorted(c, key=lambda x: (-x[0], x[1]))[0])
     ok = all(precedes_on_all_paths(call, lambda e, a=a: e is a[2], (b[0], b[1])) for a, b in zip(seq, seq[1:]))
-    pre = [e for _, _, e in call.all_events() if e.get("k") in ("decl",) and e.get("var") == "prepend_command_line"]
-    if ok and pre and "pika.commandline.prepend_options" in T(pre[0].get("init")):
+    # the prefix handed to prepend_options comes from the configuration entry pika.commandline.prepend_options
+    pcall = seq[0][2]
+    pre = [e for _, _, e in call.all_events() if e.get("k") in ("decl",) and e.get("init") is not None and "pika.commandline.prepend_options" in T(e["init"])]
+    fed = len(pcall.get("args") or []) >= 2 and derives_from(call, pcall["args"][1], lambda t: "pika.commandline.prepend_options" in t)
+    if ok and fed:
         rep.ok("C16.R4", call, "call(): prepend_options -> parse_commandline -> handle_arguments -> reconfigure; prefix taken from pika.commandline.prepend_options")
     else:
         rep.bad("C16.R4", call, call.loc, "call-order", "command_line_handling::call must prepend the configured options, parse, handle the arguments and only then reconfigure")
